@@ -89,6 +89,23 @@ def draw_chain(draw):
                     cur = i2 if i2 is not None else i1
                 else:
                     cur = i1
+    elif g.boolean(0.2):
+        # order_rows without limit (dropped by the builder when a further order_rows follows) and then a top-k with its
+        # own order columns, a non-empty reverse and a limit: the surviving step must keep every parameter
+        first = gen.step_order_rows(g, b.schemas[cur], final=False)
+        second = gen.step_order_rows(g, b.schemas[cur], final=False)
+        if first is not None and second is not None and second["cols"]:
+            first["limit"] = None
+            first["src"] = cur
+            i1 = b.add(first)
+            if i1 is not None:
+                if second["limit"] is None:
+                    second["limit"] = g.pick([1, 2, 3])
+                if not second["reverse"]:
+                    second["reverse"] = g.subset(second["cols"], lo=1, hi=len(second["cols"]))
+                second["src"] = i1
+                i2 = b.add(second)
+                cur = i2 if i2 is not None else i1
     case = b.finish(cur)
     # linearise: chain = nodes from the table up to the root
     chain = []
